@@ -108,6 +108,80 @@ Example c20_nonvacuous :
      [k "data"; k "group_id"; k "name"; k "path"; k "protocol_types"; k "time"; k "to_router"].
 Proof. exact p_c20_nonvacuous. Qed.
 
+(* ---------------------------------------------------------------------------------------------------
+   The telemetry layer as the transport drives it (Model/QlogSpan.v; proofs in Proofs/QlogSpan.v): the receive
+   path of read_plain_packet and the loss path of may_loss on arbitrary payload bytes, under every exporter
+   (no span, no-op logger, channel, filtering exporter, file logger) and every lifetime of the receiver. *)
+From GQ Require Import Model.QlogSpan Proofs.QlogSpan.
+
+(* logging never panics: for every exporter state (receiver alive or gone), scheme, path, packet type and payload
+   the packet is processed and observed; the crash outcome of the model (an underflowing subtraction of the ACK
+   range walk) is unreachable because the frame reader only delivers ACK frames that pass AckFrame::is_valid *)
+Theorem c20_log_never_panics : forall s scheme with_data p bs, exists app log, packet s scheme with_data p bs = Obs app log.
+Proof. exact p_c20_never_panics. Qed.
+
+Theorem c20_log_history_never_panics : forall ops s site, ~ In [-98; Z.of_N site] (run_from s ops).
+Proof. exact p_c20_run_no_crash. Qed.
+
+(* every frame the reader delivers converts (all 62-bit field values: narrowing truncates) ... *)
+Theorem c20_log_conv_total : forall raw with_data f, frame_valid f -> exists q, conv raw with_data f = QOk q.
+Proof. exact p_c20_conv_total. Qed.
+
+Theorem c20_log_reader_valid : forall p bs c f t, be_frame p bs = FOk c f t -> frame_valid f.
+Proof. exact be_frame_valid. Qed.
+
+(* ... and the validity check is needed: on an ACK the reader refuses, the conversion as coded underflows *)
+Theorem c20_log_conv_needs_valid :
+  conv false true (Ack 0 0 1 [] None) = QPanic 1 /\ conv false true (Ack 5 0 0 [(4, 0)] None) = QPanic 2.
+Proof. exact p_c20_conv_needs_valid. Qed.
+
+(* purely observational: what the dispatcher is handed is the frame reader's output, the same under any two
+   exporter states, schemes and paths *)
+Theorem c20_log_observational : forall s1 s2 sc1 sc2 wd1 wd2 p bs a1 l1 a2 l2,
+  packet s1 sc1 wd1 p bs = Obs a1 l1 -> packet s2 sc2 wd2 p bs = Obs a2 l2 ->
+  a1 = a2 /\ a1 = print_all (frames_of (ptype_of p) bs).
+Proof.
+  intros s1 s2 sc1 sc2 wd1 wd2 p bs a1 l1 a2 l2 H1 H2.
+  exact (conj (p_c20_same_behaviour _ _ _ _ _ _ _ _ _ _ _ _ H1 H2) (p_c20_observational _ _ _ _ _ _ _ H1)).
+Qed.
+
+(* filtered, disabled, nobody listening, malformed payload: nothing reaches anybody *)
+Theorem c20_log_silent : forall s scheme with_data p bs app log,
+  packet s scheme with_data p bs = Obs app log ->
+  passes s scheme = false \/ visible s = false \/ oks (frames_of (ptype_of p) bs) = None -> log = [0].
+Proof. exact p_c20_silent. Qed.
+
+Theorem c20_log_disabled : forall s scheme, kind s = 0 \/ kind s = 1 -> passes s scheme = false.
+Proof. exact p_c20_disabled. Qed.
+
+(* passed and listened to: exactly one event, with the span's group id, that parses back, carrying the collected frames *)
+Theorem c20_log_delivered : forall s scheme with_data p bs app log,
+  packet s scheme with_data p bs = Obs app log -> passes s scheme = true -> visible s = true ->
+  oks (frames_of (ptype_of p) bs) <> None ->
+  exists frames, collect (wants_raw s) with_data [] (seen (frames_of (ptype_of p) bs)) = COk frames /\
+                 log = ([1; b2z (group_present s); 1; zlen frames] ++ List.concat frames)%list.
+Proof. exact p_c20_delivered. Qed.
+
+(* the fields qlog defines as uint32 hold the low 32 bits of the 62-bit wire value *)
+Theorem c20_log_narrowed : forall raw wd s e fs seq rpt cid tok c r,
+  conv raw wd (ResetStream s e fs) = QOk [3; s / 4; u32 e; fs] /\
+  conv raw wd (StopSending s e) = QOk [4; s / 4; u32 e] /\
+  conv raw wd (NewConnectionId seq rpt cid tok) = QOk [14; u32 seq; u32 rpt; zlen cid] /\
+  conv raw wd (RetireConnectionId seq) = QOk [15; u32 seq] /\
+  conv raw wd (CloseApp c r) = QOk [18; 1; u32 c; -1] /\
+  0 <= u32 e < 2 ^ 32 /\ 0 <= u32 seq < 2 ^ 32 /\ 0 <= u32 rpt < 2 ^ 32 /\ 0 <= u32 c < 2 ^ 32.
+Proof. exact p_c20_narrowed. Qed.
+
+(* non-vacuity: RESET_STREAM(stream 55, error 2^62 - 1, final size 16384) declared lost under a filtering exporter
+   that passes packet_lost: logged with error_code 2^32 - 1; after the receiver is gone the same packet is
+   processed identically and nothing is delivered; under no exporter likewise *)
+Example c20_log_nonvacuous :
+  run_qlog [] [(0%N, [3; 7; 0]); (3%N, [3; 1; 4; 55; 255; 255; 255; 255; 255; 255; 255; 255; 128; 0; 64; 0]);
+               (1%N, []); (3%N, [3; 1; 4; 55; 255; 255; 255; 255; 255; 255; 255; 255; 128; 0; 64; 0]);
+               (0%N, [0; 0; 0]); (2%N, [3; 1; 4; 55; 255; 255; 255; 255; 255; 255; 255; 255; 128; 0; 64; 0])]
+  = [[3]; [0; 14; 4; -7; 1; 0; 1; 1; 3; 13; 4294967295; 16384]; []; [0; 14; 4; -7; 0]; [0]; [0; 14; 4; -7; 0]].
+Proof. vm_compute. reflexivity. Qed.
+
 Print Assumptions c20_roundtrip.
 Print Assumptions c20_schema_wf.
 Print Assumptions c20_roundtrip_table.
@@ -124,3 +198,14 @@ Print Assumptions c20_mandatory_legacy.
 Print Assumptions c20_group_id.
 Print Assumptions c20_roundtrip_refuted.
 Print Assumptions c20_nonvacuous.
+Print Assumptions c20_log_never_panics.
+Print Assumptions c20_log_history_never_panics.
+Print Assumptions c20_log_conv_total.
+Print Assumptions c20_log_reader_valid.
+Print Assumptions c20_log_conv_needs_valid.
+Print Assumptions c20_log_observational.
+Print Assumptions c20_log_silent.
+Print Assumptions c20_log_disabled.
+Print Assumptions c20_log_delivered.
+Print Assumptions c20_log_narrowed.
+Print Assumptions c20_log_nonvacuous.
